@@ -200,6 +200,18 @@ def gen_cli_unit(rng, nblocks, names):
         ops.append('t %s %d' % (n.encode().hex(), v)); st[0]['t'][n] = k
         return '%s %s { char a[%d]; }' % (k, n, v)
 
+    def tag_forward_text(n, infunc):
+        """`struct n;` declares a NEW tag in the current scope even when an outer n is visible (6.7.2.3p7): a pointer
+        declared between it and the definition points to the inner type"""
+        v = fresh() % 4000 + 1
+        k = rng.choice(['struct', 'union'])
+        ops.append('t %s %d' % (n.encode().hex(), v)); st[0]['t'][n] = k
+        c = 'chk_%d' % len(checks)
+        ops.append('gt %s 1' % n.encode().hex()); checks.append(c)
+        fp = 'fp_%d' % len(checks)
+        return '%s %s; %s%s %s *%s; %s %s { char a[%d]; }; %s = sizeof(*%s);' % (
+            k, n, '' if infunc else 'static ', k, n, fp, k, n, v, c if infunc else 'int ' + c, fp)
+
     def use_text(infunc):
         """returns a statement/declaration observing one name, or None"""
         n = rng.choice(names)
@@ -221,8 +233,10 @@ def gen_cli_unit(rng, nblocks, names):
         n = rng.choice(names)
         if r < 0.3 and n not in st[0]['d']:
             src.append(ind + ident_decl_text(n) + ';')
-        elif r < 0.45 and n not in st[0]['t']:
+        elif r < 0.40 and n not in st[0]['t']:
             src.append(ind + tag_decl_text(n) + ';')
+        elif r < 0.47 and n not in st[0]['t']:
+            src.append(ind + tag_forward_text(n, True))
         else:
             u = use_text(True)
             if u:
@@ -497,6 +511,41 @@ def run(ctx):
                 wrong = [(k, got.get(k), v) for k, v in exp.items() if got.get(k, [None])[0] != v]
                 if wrong:
                     ctx.violation('large unit: %r' % (wrong[:3],), bigsrc, 'c', key='cli-big')
+            # macro table history: #define / #undef / re-#define of many (colliding) names; a name that is not
+            # currently a macro denotes the enumeration constant of the same name
+            for rep in range(3 if not thorough else 20):
+                mn = ['m%d_%s' % (i, 'x' * (i % 5)) for i in range(rng.choice([40, 150, 400]))]
+                msrc = 'enum { ' + ', '.join('%s = %d' % (n, 100000 + i) for i, n in enumerate(mn)) + ' };\n'
+                state = {}
+                mexp = {}
+                for step in range(len(mn) * 3):
+                    i = rng.randrange(len(mn))
+                    n = mn[i]
+                    r = rng.random()
+                    if r < 0.45:
+                        if n in state:
+                            msrc += '#undef %s\n' % n
+                        state[n] = step
+                        msrc += '#define %s %d\n' % (n, step)
+                    elif r < 0.75:
+                        msrc += '#undef %s\n' % n
+                        state.pop(n, None)
+                    else:
+                        c = 'chk_m%d' % len(mexp)
+                        msrc += 'static int %s = %s;\n' % (c, n)
+                        mexp[c] = state.get(n, 100000 + i)
+                for i, n in enumerate(mn):
+                    c = 'chk_m%d' % len(mexp)
+                    msrc += 'static int %s = %s;\n' % (c, n)
+                    mexp[c] = state.get(n, 100000 + i)
+                rc, out, err = ctx.qbe(msrc, timeout=60)
+                stats['cli_units'] += 1
+                stats['cli_checks'] += len(mexp)
+                got = parse_data_ints(out) if rc == 0 else {}
+                wrong = [(k, got.get(k), v) for k, v in mexp.items() if got.get(k, [None])[0] != v]
+                if rc != 0 or wrong:
+                    ctx.violation('macro table history (%d names): %s' % (len(mn), err[:200] if rc != 0 else 'wrong expansions %r' % (wrong[:3],)), msrc, 'c', key='cli-macro-history')
+                    break
             for src, exp in EXTRA_CLI:
                 rc, out, err = ctx.qbe(src)
                 stats['cli_units'] += 1
